@@ -577,6 +577,41 @@ long_fill_case(int op_main, size_t n_want) {
 	free(buf);
 }
 
+/* "all record types and classes": every 16-bit TYPE (class IN) and every 16-bit CLASS (type A) in a one-record answer -
+ * bytes as RFC 1035 lays them out, validated, and parsed back field for field (TYPE 41 = OPT is left to the OPT cases: its
+ * TTL octets have another meaning).  One case = the 256 values with the same high byte. */
+static void
+type_class_sweep(void) {
+	int which, hi, lo, rc; uint8_t buf[128], want[128], nb[300]; dns_hdr_p hdr = (dns_hdr_p)buf;
+	const name_t *nm = &N_r1; const uint32_t TTL = 0x01020304u; size_t msg_size, out, wl, nl, esz; uint16_t t, c, ds; uint32_t ttl; void *dp;
+	for (which = 0; which < 2; which ++) for (hi = 0; hi < 256; hi ++) {
+		int bad = 0;
+		if (!vh_begin(which ? "dns_msg_rr_add/every-class" : "dns_msg_rr_add/every-type")) continue;
+		vh_desc("%s 0x%02x00..0x%02xff, ttl 0x%08x, 4 bytes of data", which ? "class" : "type", hi, hi, TTL);
+		for (lo = 0; lo < 256 && !bad; lo ++) {
+			uint16_t v = (uint16_t)((hi << 8) | lo), type = which ? DNS_RR_TYPE_A : v, class = which ? v : DNS_RR_CLASS_IN;
+			if (!which && (DNS_RR_TYPE_OPT == v || 0 == v)) continue;
+			memset(buf, 0xA5, sizeof(buf)); msg_size = 0;
+			if (0 != dns_hdr_create(hdr_id_value(), hdr_flags_value(), hdr, sizeof(buf), &msg_size)) { vh_fail("dns_hdr_create:rc", "-"); bad = 1; break; }
+			memcpy(want, buf, msg_size); wl = msg_size;
+			out = 0;
+			rc = dns_msg_rr_add(hdr, msg_size, sizeof(buf), 0, nm->text, nm->tlen, type, class, TTL, 4, (void *)RD_A, &out);
+			if (0 != rc) { vh_fail("sweep:add-refused", "type %u class %u: rc=%d", type, class, rc); bad = 1; break; }
+			dns_hdr_an_inc(hdr, 1);
+			want[7] = 1;	/* ANCOUNT = 1 */
+			memcpy(want + wl, nm->wire, nm->wlen); wl += nm->wlen;
+			put16(want + wl, type); put16(want + wl + 2, class); put32(want + wl + 4, TTL); put16(want + wl + 8, 4); memcpy(want + wl + 10, RD_A, 4); wl += 14;
+			if (out != wl || 0 != memcmp(buf, want, wl)) { vh_fail("sweep:rfc1035-bytes", "type %u class %u: message differs from the RFC 1035 encoding (size %zu want %zu)", type, class, out, wl); bad = 1; break; }
+			if (0 != (rc = dns_msg_validate(hdr, wl))) { vh_fail("sweep:validate", "type %u class %u: dns_msg_validate rc=%d", type, class, rc); bad = 1; break; }
+			nl = sizeof(nb); t = c = ds = 0; ttl = 0; dp = NULL; esz = 0;
+			rc = dns_msg_rr_get_data(hdr, wl, 12, nb, &nl, &t, &c, &ttl, &ds, &dp, &esz);
+			if (0 != rc || t != type || c != class || ttl != TTL || 4 != ds || NULL == dp || 0 != memcmp(dp, RD_A, 4)) {
+				vh_fail("sweep:parse-back", "type %u class %u ttl 0x%08x parsed back as rc=%d type %u class %u ttl 0x%08" PRIx32 " rdlength %u", type, class, TTL, rc, t, c, ttl, ds); bad = 1; break; }
+		}
+		if (!bad) vh_nontrivial();
+	}
+}
+
 int
 main(int argc, char **argv) {
 	int seq[5];
@@ -588,6 +623,7 @@ main(int argc, char **argv) {
 	seq_rec(seq, 0, vh_thorough ? 5 : 3, sizeof(dns_hdr_t));
 	vh_set_describer(NULL);
 	{ int o; for (o = 0; o < nops; o ++) if (K_OPT != ops[o].kind && ops[o].need < 64) long_fill_case(o, vh_thorough ? 3000 : 600); }
+	type_class_sweep();
 	if (0 == vh_shard && NULL == vh_only_target) observe_opt_layout();
 	st_dump(argv[0], "dns");
 	printf("NOTE\tdns_transitions=%llu\n", (unsigned long long)n_transitions);
